@@ -541,11 +541,20 @@ def products(ctx, world):
                 ok = f0.op == "sub" and f0.obj is im and f0.idx.value == 0 and z.op == "call" and z.fn.op == "attr" and z.fn.name == "zeros" and is_call_to(z.fn.obj, "autograd.core.vspace") and z.fn.obj.args[0].op == "sub" and z.fn.obj.args[0].obj is im and z.fn.obj.args[0].idx.value == 1
     _ok(ctx, "A15.products", "make_jvp_reversemode: make_vjp(vjp, vspace(y).zeros())[0]", ok, loc_of(m, node), f"{DO}.make_jvp_reversemode", "make_jvp_reversemode does not differentiate the vjp at zeros of the OUTPUT space and return element [0]", "a function whose output space differs from its input space")
     # make_ggnvp: ggnvp(v) = f_vjp(g_hvp(f_jvp(v)))   (terms: intermediates / unrolled chains are the same term)
-    r, syms, m, fn, sc = eval_function(world, DO, "make_ggnvp._make_ggnvp")
+    # the unary operator behind make_ggnvp: a nested @unary_to_nary def, or a module-level one that make_ggnvp calls
+    try:
+        r, syms, m, fn, sc = eval_function(world, DO, "make_ggnvp._make_ggnvp")
+    except AnalysisError:
+        r0, sy0, m0, fn0, sc0 = eval_function(world, DO, "make_ggnvp")
+        t0 = unseq(r0) if r0 is not None else None
+        ref0 = t0.fn.ref if (t0 is not None and t0.op == "call" and t0.fn.op == "ref") else None
+        if ref0 is None or ref0.kind != "repo" or not isinstance(ref0.node, ast.FunctionDef) or ref0.mod.name != DO:
+            raise AnalysisError("make_ggnvp no longer builds its result with a unary_to_nary operator")
+        r, syms, m, fn, sc = eval_function(world, DO, ref0.name)
     r = unseq(r) if r is not None else None
     ok = False
     fp, xp = syms["#0"], syms["#1"]
-    gp = sc.parent.lookup(fn._parent.args.args[1].arg) if sc.parent is not None and len(fn._parent.args.args) > 1 else None
+    gp = None
     clo, pre, prekw = ev.as_closure(r) if r is not None else (None, None, None)
     if clo is not None and not pre and not prekw:
         v = T("sym", name="v", role="param")
@@ -560,7 +569,7 @@ def products(ctx, world):
                 # g_hvp(.) with (g_hvp, grad_g_x) = make_vjp(grad(g), f_x)
                 if mid.op == "call" and comp_i(mid.fn, 0) and len(mid.args) == 1 and not mid.kw:
                     gmv = mid.fn.obj
-                    g_ok = gmv.args[0].op == "call" and _callee_name(world, DO, gmv.args[0]) == "grad" and len(gmv.args[0].args) == 1 and (gp is None or gmv.args[0].args[0] is gp) and gmv.args[1].op == "sub" and gmv.args[1].obj is fmv and gmv.args[1].idx.value == 1
+                    g_ok = gmv.args[0].op == "call" and _callee_name(world, DO, gmv.args[0]) == "grad" and len(gmv.args[0].args) == 1 and gmv.args[0].args[0].op == "sym" and gmv.args[0].args[0] is not fp and gmv.args[0].args[0] is not xp and gmv.args[1].op == "sub" and gmv.args[1].obj is fmv and gmv.args[1].idx.value == 1
                     inner = mid.args[0]
                     # f_jvp(v) with f_jvp = make_vjp(f_vjp, vspace(grad_g_x).zeros())[0]
                     if g_ok and inner.op == "call" and comp_i(inner.fn, 0) and len(inner.args) == 1 and inner.args[0] is v:
